@@ -5,6 +5,7 @@ import os
 import shutil
 
 from ..framework import Check
+from .c13 import nl_lines
 from .. import families, lib, reglib, blocklib as bl
 
 TMP = os.path.join(lib.WORK, "tmp_c16")
@@ -148,7 +149,7 @@ class CHECK(Check):
         return re.sub(r"'[^']*'|[0-9]+", "#", why)
 
     def shrink(self, case):
-        lines = case["content"].splitlines(keepends=True)
+        lines = nl_lines(case["content"])
         for i in range(len(lines)):
             c = dict(case)
             c["content"] = "".join(lines[:i] + lines[i + 1:])
